@@ -116,6 +116,28 @@ def events_for(env, rng, thorough):
                     sb = P.outcome(lambda: (Scalar(b, 2.0) * Scalar(b, 3.0)).GetUnit())
                     ev.append({"op": "SameReq", "call": "%s: square of a value in legacy spelling %s vs %s" % (how, leg, u), "eq": sa == sb and sa[0] == "ok", "ne": sa != sb,
                                "hash1": 0, "hash2": 0, "desc1": "", "desc2": ""})
+    # a long history without any registration: every unit of the table and many captions are requested (thousands of live cached quantities),
+    # new derived quantities arise from arithmetic, then the early requests are repeated - the identical objects come back
+    held = []
+    for u_ in list(db.unit_to_unit_info):
+        if db.GetDefaultCategory(u_):
+            held.append(("unit %s" % u_, (lambda u_=u_: ObtainQuantity(u_)), ObtainQuantity(u_)))
+    for k_ in range(700):
+        held.append(("caption #%d" % k_, (lambda k_=k_: ObtainQuantity("<unknown>", "Unknown", "curve %d" % k_)), ObtainQuantity("<unknown>", "Unknown", "curve %d" % k_)))
+    units_ = [h_[2].GetUnit() for h_ in held[:1400:7]]
+    for k_ in range(60):
+        a_, b_ = rng.choice(units_), rng.choice(units_)
+        P.outcome(lambda: Scalar(2.0, a_) * Scalar(3.0, b_) / Scalar(5.0, rng.choice(units_)))
+    again = held if thorough else held[:40] + rng.sample(held, 300)
+    miss = [(n_, q_, fn_()) for n_, fn_, q_ in again]
+    miss += [(n_, q_, fn_()) for (n_, q_), (_n2, fn_) in zip(made, requests)]
+    nbad = 0
+    for n_, q_, q2_ in miss:
+        if q2_ is not q_ and nbad < 20:
+            nbad += 1
+            ev.append({"op": "Intern", "call": "after a long history of requests: " + n_, "id1": id(q_), "id2": id(q2_), "desc1": desc(q_), "desc2": desc(q2_), "hash1": hash(q_), "hash2": hash(q2_)})
+    ev.append({"op": "Intern", "call": "after a long history of requests: %d early requests repeated, %d returned another object" % (len(miss), sum(1 for _n, a_, b_ in miss if a_ is not b_)),
+               "id1": 0, "id2": sum(1 for _n, a_, b_ in miss if a_ is not b_), "desc1": "", "desc2": "", "hash1": 0, "hash2": 0})
     for name, m_, us_, cs_ in pairs_forms:
         a, b = ObtainQuantity(m_), ObtainQuantity(us_, cs_)
         ev.append({"op": "SameReq", "call": name, "eq": bool(a == b), "ne": bool(a != b), "hash1": hash(a), "hash2": hash(b), "desc1": desc(a), "desc2": desc(b)})
